@@ -46,6 +46,11 @@ TRUSTED = [
     "geometric self-checks of the readers (Die._check_rectangles, Allocation._check_no_overlap, hard-module overlap, "
     "create_stog) are outside the tree-level theorems: the theorems give 'the reader sees exactly the numbers of the source "
     "object'; the real readers (with those checks) are run on every sample",
+    "NOT CLAIMED — the run-time `fixed` mark of an allocation cell: the allocation format ([[x, y, w, h, region], {module: ratio}, "
+    "depth]) has no field for it (it is re-derived from a netlist by Allocation.initial_allocation / _detect_fixed_rectangles), so an "
+    "allocation read back has all cells unmarked; operations that look at the mark can then differ (witness: 4x4 die, fixed cell "
+    "[3,1,2,2] {B: 1.0}: refine(1.0, 1) gives 5 cells on the original and 6 on the re-read object, audit/audit3_scratch/C19/"
+    "fixed_lost.py); theorem alloc_roundtrip_constructor states the re-read cells with the marks reset (stripCell)",
     "FloorSet: polygon decomposition (strop_decomposition, property C15) and the density factor alpha are inputs of the model",
     "harness (Python) and compiled Lean driver: parsing, canonicalisation, comparison",
 ]
@@ -593,23 +598,42 @@ def run_alloc(ctx: Ctx, inp: dict, batch: Batch) -> Allocation | None:
     ctx.count("alloc:depth>0" if any(c[3] > 0 for c in before) else "alloc:depth=0")
     with tempfile.TemporaryDirectory() as td:
         fn = os.path.join(td, "alloc.yaml")
-        # the text form is only recognised as text when it contains ': ' (frame/utils/utils.py read_yaml); a document
-        # without any ratio entry has none, so the file form is the one every reader can take
-        via_file = inp.get("tofile") or ": " not in s1
-        if via_file:
+        # the document is handed back AS TEXT (`Allocation(a.write_yaml())`), always; a tenth of the cases also go through
+        # a file.  A document in which no cell lists a module contains no ': ': on the unrepaired code `read_yaml` takes it
+        # for a file name (finding C19-alloc-text-no-ratio, fixes/C19_alloc_text_no_ratio.diff) — that exact signature
+        # (no ': ' in the text, OSError from open()) is attributed to the finding and the comparison goes on via a file
+        if ": " not in s1:
+            ctx.count("alloc:no-ratio-entry")
+        a2 = None
+        try:
+            a2 = Allocation(s1)
+        except OSError as e:
+            if ": " not in s1:
+                ctx.spec_fail("alloc:accepted-as-text", inp, {"document": s1[:300], "raised": repr(e)[:200]}, _size(inp),
+                              finding="C19-alloc-text-no-ratio")
+            else:
+                ctx.spec_fail("alloc:accepted", inp, {"document": s1[:600], "raised": repr(e)[:300]}, _size(inp))
+        except Exception as e:
+            ctx.spec_fail("alloc:accepted", inp, {"document": s1[:600], "raised": repr(e)[:300]}, _size(inp))
+        if inp.get("tofile") or (a2 is None and ": " not in s1):
             ret = a.write_yaml(fn)
             s_file = open(fn).read()
             if ret is not None or s_file != s1:
                 ctx.spec_fail("alloc:file-equals-string", inp, {"file": s_file[:300], "string": s1[:300]}, _size(inp))
-            if ": " not in s1:
-                ctx.count("alloc:no-ratio-entry(read via file)")
-        try:
-            a2 = Allocation(fn if via_file else s1)
-        except Exception as e:
-            ctx.spec_fail("alloc:accepted", inp, {"document": s1[:600], "raised": repr(e)[:300]}, _size(inp))
-            a2 = None
+            Rectangle.undefine_epsilon()
+            try:
+                a2f = Allocation(fn)
+                if a2 is not None and not typed_eq(plain(alloc_snapshot(a2f)), plain(alloc_snapshot(a2))):
+                    ctx.spec_fail("alloc:file-and-text-read-alike", inp, {}, _size(inp))
+                a2 = a2 or a2f
+            except Exception as e:
+                ctx.spec_fail("alloc:accepted-from-file", inp, {"document": s1[:600], "raised": repr(e)[:300]}, _size(inp))
     if a2 is not None:
         after = alloc_snapshot(a2)
+        if [c[1] for c in before] != [c[1] for c in after]:
+            # NOT CLAIMED: the allocation format `[[x, y, w, h, region], {module: ratio}, depth]` has no field for the run-time
+            # `fixed` mark of a cell (set by `_detect_fixed_rectangles` from a netlist); it is counted, not compared
+            ctx.count("alloc:fixed-mark-not-carried(no field in the format)")
         if [c[0] for c in before] != [c[0] for c in after]:
             ctx.spec_fail("alloc:same-cells", inp, {"written": [c[0] for c in before], "read": [c[0] for c in after]}, _size(inp))
         elif [c[2] for c in before] != [c[2] for c in after]:
@@ -782,6 +806,78 @@ def nl_read_request(batch: "Batch", doc: str, inp: Any) -> None:
     batch.add("F nl_read " + f2hex(eps_a) + " " + enc(load_text(doc)), exp, "nl_read", inp, "tol")
 
 
+def gen_netgen_centres(rng) -> dict:
+    rows, cols = rng.randint(1, 5), rng.randint(1, 5)
+    fam = rng.choice(["int", "half", "dec", "float"])
+    W = fam_coord(rng, fam, 1, 40) if fam != "float" else rng.uniform(1, 40)
+    H = fam_coord(rng, fam, 1, 40) if fam != "float" else rng.uniform(1, 40)
+    return {"producer": "netgenc", "rows": rows, "cols": cols, "W": float(W), "H": float(H),
+            "sd": rng.choice([0, 0, 0.1, 0.5, 1e-3]), "seed": rng.randint(0, 10 ** 6), "cli": rng.random() < 0.15}
+
+
+def run_netgen_centres(ctx: Ctx, inp: dict, batch: Batch) -> None:
+    """`netgen --type grid --add-centers` (gen_grid / gen_modules with add_centers, optional gaussian noise)."""
+    import random
+    from tools.netgen import netgen
+    rows, cols, W, H, sd, seed = inp["rows"], inp["cols"], inp["W"], inp["H"], inp["sd"], inp["seed"]
+    sz = rows * cols
+    Rectangle.undefine_epsilon()
+    random.seed(seed)
+    d1 = netgen.gen_grid(rows, cols, 1, True, sd, Shape(W, H))
+    random.seed(seed)
+    d2 = netgen.gen_grid(rows, cols, 1, True, sd, Shape(W, H))
+    random.seed(seed)
+    draws = [random.gauss(0, sd) for _ in range(2 * rows * cols)]     # the draws, in the order gen_modules makes them
+    s1, s2 = netgen_dump(d1), netgen_dump(d2)
+    ctx.case("netgen", ("netgenc", rows, cols, W, H, sd, seed), True,
+             sample={"producer": "netgen --add-centers", "rows": rows, "cols": cols, "die": [W, H], "sd": sd})
+    ctx.count("netgen:grid+centres" + (":noise" if sd else ":exact"))
+    if s1 != s2:
+        ctx.spec_fail("netgenc:twice-same-seed", inp, {}, sz)
+    if inp.get("cli"):
+        with tempfile.TemporaryDirectory() as td:
+            fn = os.path.join(td, "n.yaml")
+            args = ["-o", fn, "--type", "grid", "--size", str(rows), str(cols), "--add-centers", "--die", f"{W!r}x{H!r}",
+                    "--seed", str(seed)] + (["--add-noise", repr(sd)] if sd else [])
+            netgen.main("netgen", args)
+            Rectangle.undefine_epsilon()
+            if open(fn).read() != s1:
+                ctx.spec_fail("netgenc:cli-equals-builder", inp, {}, sz)
+    # the clause: the centre of M_r_c is the centre of cell (r, c) of the rows × cols grid on the W × H die (+ its draws)
+    names, nets = topo_spec("grid", [rows, cols])
+    for r in range(rows):
+        for c in range(cols):
+            k = r * cols + c
+            want = (Fraction(2 * c + 1, 2 * cols) * Fraction(W) + Fraction(draws[2 * k]),
+                    Fraction(2 * r + 1, 2 * rows) * Fraction(H) + Fraction(draws[2 * k + 1]))
+            got = plain(d1)["Modules"].get(mname(r, c), {}).get("center")
+            tol = Fraction(1, 10 ** 9) * max(Fraction(W), Fraction(H))
+            if not (isinstance(got, list) and len(got) == 2 and abs(Fraction(got[0]) - want[0]) <= tol and abs(Fraction(got[1]) - want[1]) <= tol):
+                ctx.spec_fail("netgenc:centre-is-cell-centre", inp, {"module": mname(r, c), "centre": got, "intended": [float(want[0]), float(want[1])]}, sz)
+                break
+            if not sd and not (Fraction(c, cols) * Fraction(W) < Fraction(got[0]) < Fraction(c + 1, cols) * Fraction(W)
+                               and Fraction(r, rows) * Fraction(H) < Fraction(got[1]) < Fraction(r + 1, rows) * Fraction(H)):
+                ctx.spec_fail("netgenc:centre-inside-its-cell", inp, {"module": mname(r, c), "centre": got}, sz)
+                break
+    try:
+        nl = Netlist(s1)
+    except Exception as e:
+        ctx.spec_fail("netgenc:accepted", inp, {"document": s1[:400], "raised": repr(e)[:200]}, sz)
+        nl = None
+    Rectangle.undefine_epsilon()
+    if nl is not None:
+        sm = netlist_summary(nl)
+        if [m["name"] for m in sm["modules"]] != names or sm["nets"] != [[a, w] for a, w in nets]:
+            ctx.spec_fail("netgenc:topology", inp, {}, sz)
+        for m in sm["modules"]:
+            if m["hard"] or m["rects"] or m["area"] != {"_": 1.0} or m["center"] != [float(v) for v in plain(d1)["Modules"][m["name"]]["center"]]:
+                ctx.spec_fail("netgenc:same-centre-area", inp, {"module": m["name"], "read": m}, sz)
+                break
+    batch.add(f"F netgenc {rows} {cols} {f2hex(W)} {f2hex(H)} {len(draws)} " + " ".join(f2hex(v) for v in draws),
+              plain(d1), "netgen:grid+centres", inp, "tol")
+    nl_read_request(batch, s1, inp)
+
+
 def _nl_expected(text_or_tree) -> tuple[Any, float]:
     """what the real netlist reader makes of a document, in the shape the Lean op `nl_read` prints, and the area
     tolerance that was in force while it checked the hard modules."""
@@ -889,6 +985,12 @@ def gen_floorset(rng) -> dict:
             (0.0, rng.uniform(0, H)), (W, rng.uniform(0, H)), (rng.uniform(0, W), H)]
     if rng.random() < 0.2:
         cand.append((rng.uniform(1, W - 1), rng.uniform(1, H - 1)))   # a pin that is not on the border
+    # pins within (and just beyond) EPSILON = 1e-3 of a border: both branches of the pin placement and their boundaries
+    near = [4e-4, 5e-4, 9.99e-4, 1e-3, math.nextafter(1e-3, 0.0), math.nextafter(1e-3, 1.0), 1.0000001e-3, 1.4e-3, 1e-9]
+    for _ in range(rng.choice([0, 1, 2, 3])):
+        d, e = rng.choice(near), rng.choice(near)
+        cand.append(rng.choice([(d, rng.uniform(1, H - 1)), (W - d, rng.uniform(1, H - 1)), (rng.uniform(1, W - 1), e),
+                                (rng.uniform(1, W - 1), H - e), (d, e), (W - d, H - e), (d, H - e), (W - d, e)]))
     rng.shuffle(cand)
     pins = [list(map(float, p)) for p in cand[:rng.randint(1, len(cand))]]
     # the die of an instance is spanned by its pins (width = max x, height = max y): keep it non-degenerate
@@ -1467,7 +1569,7 @@ def run_legal(ctx: Ctx, inp: dict, batch: Batch) -> None:
 
 
 # =============================================================================== orchestration
-RUNNERS = {"die": run_die, "alloc": run_alloc, "netgen": run_netgen, "namededges": run_namededges,
+RUNNERS = {"netgenc": run_netgen_centres, "die": run_die, "alloc": run_alloc, "netgen": run_netgen, "namededges": run_namededges,
            "floorset": run_floorset, "rectio": run_rectio, "solnet": run_solnet, "legalfloor": run_legal}
 
 
@@ -1515,7 +1617,7 @@ def run(ctx: Ctx) -> None:
                 "blockages + tagged regions + fixed modules of a netlist), written unrefined, after split_refinable_regions "
                 "or after initial_grid; alloc: random allocation trees (cells with/without region, ratio maps incl. 0/1/ints, "
                 "depths) and die+netlist pipelines (create_initial_allocation, refine, uniform_refinement_depth, griddify); "
-                "netgen: EVERY topology at EVERY size up to the tier bound (no sampling); namededges: random edge lists; "
+                "netgen: EVERY topology at EVERY size up to the tier bound (no sampling), plus grids with --add-centers (with and without noise, builder and CLI); namededges: random edge lists; "
                 "floorset: synthetic numpy instances (rect/L/T/U/plus polygons in random orientation, soft/hard/pre-placed, "
                 "pins on the four borders, in the corners and inside, both terminal modes, with/without density); "
                 "rect_io.get_netlist on the allocation stream's objects and on allocations in units 1e-6…1e3 / 2^-20…2^10 whose modules span ≥ 2 cells (area and centre compared with exact sums at relative tolerance 1e-9); solution_to_netlist on random netlists (soft/hard/"
@@ -1526,6 +1628,8 @@ def run(ctx: Ctx) -> None:
         "netgen sizes below chain 1, star 1, one-net 2, ring 3, ring-star 4, h-tree 1, grid 1×1 are 'topology not defined' "
         "(self-loops, one-pin nets, unknown modules) and are only counted",
         "a source object that the constructors themselves reject (C01/C02/C12 territory) produces no document and is skipped",
+        "NOT CLAIMED: the run-time `fixed` mark of allocation cells is not part of the allocation document (no field in the format); "
+        "cells are compared without it and the cases where it is lost are counted (alloc:fixed-mark-not-carried)",
         "FloorSet-Lite inputs (one [w,h,x,y] row per block) cannot be converted at all (IndexError in _parse_modules): "
         "the property's quantifier is over instances with polygonal blocks (FloorSet-Prime)",
         "legalfloor cannot build a model for modules without rectangles (terminals): those netlists are not solutions "
@@ -1542,6 +1646,8 @@ def run(ctx: Ctx) -> None:
             safe(ctx, inp["producer"], inp, batch)
     for inp in netgen_cases(ctx):
         safe(ctx, "netgen", inp, batch)
+    for _ in range(ctx.n(60, 600)):
+        safe(ctx, "netgenc", gen_netgen_centres(rng), batch)
     for _ in range(ctx.n(150, 2000)):
         safe(ctx, "die", gen_die(rng), batch)
     for _ in range(ctx.n(150, 1500)):
